@@ -17,6 +17,7 @@ import (
 	"github.com/ipld/go-storethehash/store/freelist"
 	"github.com/ipld/go-storethehash/store/primary"
 	"github.com/ipld/go-storethehash/store/types"
+	"github.com/ipld/go-storethehash/store/vhook"
 	"github.com/multiformats/go-multihash"
 )
 
@@ -108,6 +109,7 @@ func Open(path string, freeList *freelist.FreeList, fileCache *filecache.FileCac
 		}
 
 		// Header does not exist, so create new one.
+		vhook.Point("mh.open.header")
 		header = newHeader(maxFileSize)
 		if err = writeHeader(headerPath, header); err != nil {
 			return nil, err
@@ -128,6 +130,7 @@ func Open(path string, freeList *freelist.FreeList, fileCache *filecache.FileCac
 		}
 	}
 
+	vhook.Point("mh.open.file")
 	file, err := os.OpenFile(primaryFileName(path, lastPrimaryNum), os.O_RDWR|os.O_APPEND|os.O_CREATE, 0o644)
 	if err != nil {
 		return nil, err
@@ -296,10 +299,12 @@ func (cp *MultihashPrimary) flushBlock(key []byte, value []byte) (types.Work, er
 			return 0, fmt.Errorf("creating primary file overwrites existing, check file size, gc and path (maxFileSize=%d) (path=%s)", cp.maxFileSize, primaryPath)
 		}
 
+		vhook.Point("mh.roll.create")
 		file, err := os.OpenFile(primaryPath, os.O_RDWR|os.O_APPEND|os.O_CREATE, 0o644)
 		if err != nil {
 			return 0, fmt.Errorf("cannot open new primary file %s: %w", primaryPath, err)
 		}
+		vhook.Point("mh.roll.flushOld")
 		if err = cp.writer.Flush(); err != nil {
 			return 0, fmt.Errorf("cannot write to primary file %s: %w", cp.file.Name(), err)
 		}
@@ -372,6 +377,7 @@ func (cp *MultihashPrimary) Flush() (types.Work, error) {
 	cp.outstandingWork = 0
 	cp.poolLk.Unlock()
 
+	vhook.Point("mh.flush.swapped")
 	// The pool lock is released allowing Put to write to nextPool. The
 	// flushLock is still held, preventing concurrent flushes from changing the
 	// pools or accessing writer.
@@ -384,10 +390,12 @@ func (cp *MultihashPrimary) Flush() (types.Work, error) {
 		}
 		work += blockWork
 	}
+	vhook.Point("mh.flush.write")
 	err := cp.writer.Flush()
 	if err != nil {
 		return 0, fmt.Errorf("cannot flush data to primary file %s: %w", cp.file.Name(), err)
 	}
+	vhook.Point("mh.flush.written")
 
 	return work, nil
 }
@@ -413,6 +421,7 @@ func (mp *MultihashPrimary) Close() error {
 	}
 	mp.gcMutex.Unlock()
 
+	vhook.Point("mh.close.gcStopped")
 	mp.fileCache.Clear()
 
 	_, err := mp.Flush()
